@@ -5,8 +5,10 @@ import (
 	"encoding/json"
 	"fmt"
 	"os"
+	"os/signal"
 	"strings"
 	"sync"
+	"syscall"
 	"time"
 
 	oid "github.com/nspcc-dev/neofs-sdk-go/object/id"
@@ -20,9 +22,10 @@ import (
 // injection). A verifier process reopens the tree and reads everything back.
 
 type sysOp struct {
-	Kind string `json:"kind"` // put | batch | par | del
+	Kind string `json:"kind"` // put | batch | par | del | torn
 	A    int    `json:"a,omitempty"`
 	As   []int  `json:"as,omitempty"`
+	Cut  int    `json:"cut,omitempty"` // torn: bytes of the second object's record that still fit the file size limit
 }
 
 type sysJob struct {
@@ -124,6 +127,47 @@ func worker(jobPath string) {
 					say(fmt.Sprintf("R %d put %d %s", i, a, r))
 				}()
 			}
+			wg.Wait()
+		case "torn":
+			// A real short writev in the middle of a timed batch: Put(as[0]) waits for its batch; the soft
+			// RLIMIT_FSIZE is lowered so that the kernel cuts the record of as[1] after Cut bytes; the limit is
+			// restored and as[2] is put while the batch of as[0] may still be open; Close flushes.
+			signal.Ignore(syscall.SIGXFSZ)
+			var wg sync.WaitGroup
+			put := func(a int) {
+				defer wg.Done()
+				say(fmt.Sprintf("R %d put %d %s", i, a, resOf(t.Put(u.addr(a), u.get(a, 1).stored))))
+			}
+			appear := func(a int) int64 {
+				p := treePath(j.Root, j.Cfg.Depth, u.addr(a))
+				for k := 0; k < 4000; k++ {
+					if st, err := os.Stat(p); err == nil {
+						return st.Size()
+					}
+					time.Sleep(time.Millisecond)
+				}
+				return -1
+			}
+			a, b, c := op.As[0], op.As[1], op.As[2]
+			say(fmt.Sprintf("B %d put %d", i, a))
+			wg.Add(1)
+			go put(a)
+			if sz := appear(a); sz >= 0 {
+				var orig unix.Rlimit
+				kit.Must(unix.Getrlimit(unix.RLIMIT_FSIZE, &orig))
+				lim := orig
+				lim.Cur = uint64(sz) + uint64(op.Cut)
+				kit.Must(unix.Setrlimit(unix.RLIMIT_FSIZE, &lim))
+				say(fmt.Sprintf("B %d put %d", i, b))
+				r := resOf(t.Put(u.addr(b), u.get(b, 1).stored))
+				kit.Must(unix.Setrlimit(unix.RLIMIT_FSIZE, &orig))
+				say(fmt.Sprintf("R %d put %d %s", i, b, r))
+			}
+			say(fmt.Sprintf("B %d put %d", i, c))
+			wg.Add(1)
+			go put(c)
+			appear(c)
+			_ = t.Close()
 			wg.Wait()
 		default:
 			kit.Must(fmt.Errorf("unknown op kind %q", op.Kind))
